@@ -24,7 +24,7 @@ P = ScenarioProperty(
     lambda sc: [C12Checker(sc)],
     _judge,
     quick=1600,
-    thorough=30000,
+    thorough=30000, keep_on_crash=True,
 )
 run_shard = P.run_shard
 replay = P.replay
